@@ -191,10 +191,11 @@ Owed(P, M, c) ==
         pubN   == { x.n : x \in { y \in t.R : y.vis = "pub" } }
         privN  == { x.n : x \in { y \in t.R : y.vis = "priv" } } \ pubN
         optN   == { n \in pubN \cup privN : \A x \in t.R : x.n = n => (x.src # 0 /\ x.src \in t.W) }
+        partN  == { M[j] : j \in t.W } \ {""}
         Ents(n) == IF { x \in t.V : x.n = n } = {} THEN {Ent(n, "")} ELSE { x \in t.V : x.n = n }
     IN [pubL |-> pubL, privL |-> privL,
         pubR |-> UNION { Ents(n) : n \in pubN }, privR |-> UNION { Ents(n) : n \in privN },
-        optN |-> optN, C |-> t.C, W |-> t.W, T |-> t.T,
+        optN |-> optN, partN |-> partN, C |-> t.C, W |-> t.W, T |-> t.T,
         used |-> { x.src : x \in t.R } \ {0}]
 
 \* ---- scalar fields ([PM] keyword arguments and the defaults given by a main library) ----------------
@@ -242,6 +243,11 @@ Literals(refs) == IF refs = <<>> THEN <<>> ELSE Literal(Head(refs)) \o Literals(
 DirectSeq(c, v) == IF v = "pub" THEN (IF c.main = 0 THEN <<>> ELSE <<LibItem(c.main)>>) \o Literals(c.libs)
                    ELSE Literals(c.libsp)
 
+\* words that dependency objects of the call contribute as well (their place is not constrained)
+NoWords(refs) == SelectSeq(refs, LAMBDA r : r.t # "str")
+AlsoContributed(P, M, c) ==
+    { x.it : x \in { y \in Contrib(P, M, [c EXCEPT !.libs = NoWords(@), !.libsp = NoWords(@)]).L : y.it.t = "str" } }
+
 \* objects that lead to library y in this call, 0 standing for the call itself
 Parents(P, c, ow, y) ==
     { o \in ow.T : y \in Near(P, P.objs[o]) }
@@ -270,9 +276,14 @@ IncFlags(c) == [k \in 1..Len(c.subdirs) |-> IF c.subdirs[k] = "." THEN "-I${incl
                                                                    ELSE "-I${includedir}/" \o c.subdirs[k]]
 
 ReqNames(r) == { x.n : x \in Rng(r) }
-ReqSetOk(got, owed, optN) ==
-    /\ { x \in Rng(got) : x.n \notin optN } = { x \in owed : x.n \notin optN }
-    /\ Rng(got) \subseteq owed
+\* "" = as owed; otherwise what is wrong.  "whole-linked-sibling": the only entries missing are files that
+\* stand for several libraries of which one is link_whole'd in this call (the others still need the file)
+ReqVerdict(got, owed, ow, mode) ==
+    LET missing == { x \in owed : x.n \notin ow.optN } \ Rng(got)
+        extra   == Rng(got) \ owed
+    IN IF missing = {} /\ extra = {} THEN ""
+       ELSE IF extra = {} /\ \A x \in missing : x.n \in ow.partN THEN "whole-linked-sibling"
+       ELSE mode
 
 (***************************************************************************)
 (* The clauses one file (installed: mode "inst", f = the projected file;   *)
@@ -293,8 +304,10 @@ FieldClauses(P, St, c, f, mode) ==
     LET ow   == Owed(P, St.M, c)
         pe   == EntriesOf(f.libs)
         pve  == EntriesOf(f.libsp)
-    IN  (IF ReqSetOk(f.req, ow.pubR, ow.optN) THEN {} ELSE {Fail("RequiresSet", mode)})
-        \cup (IF ReqSetOk(f.reqp, ow.privR, ow.optN) THEN {} ELSE {Fail("RequiresPrivateSet", mode)})
+        also == AlsoContributed(P, St.M, c)
+        lit(v) == Rng(DirectSeq(c, v)) \ also
+    IN  (IF ReqVerdict(f.req, ow.pubR, ow, mode) = "" THEN {} ELSE {Fail("RequiresSet", ReqVerdict(f.req, ow.pubR, ow, mode))})
+        \cup (IF ReqVerdict(f.reqp, ow.privR, ow, mode) = "" THEN {} ELSE {Fail("RequiresPrivateSet", ReqVerdict(f.reqp, ow.privR, ow, mode))})
         \cup (IF Rng(pe) = ow.pubL THEN {} ELSE {Fail("LibsSet", mode)})
         \cup (IF Rng(pve) = ow.privL THEN {} ELSE {Fail("LibsPrivateSet", mode)})
         \cup (IF NoDup(f.req) /\ NoDup(f.reqp) /\ NoDup(f.libs) /\ NoDup(f.libsp)
@@ -304,8 +317,8 @@ FieldClauses(P, St, c, f, mode) ==
               THEN {} ELSE {Fail("LibraryDirs", mode)})
         \cup (IF c.main # 0 /\ St.M[c.main] = "" /\ LibItem(c.main) \in ow.pubL /\ (pe = <<>> \/ pe[1] # LibItem(c.main))
               THEN {Fail("MainLibraryFirst", mode)} ELSE {})
-        \cup (IF Filter(pe, Rng(DirectSeq(c, "pub"))) = FirstOcc(Filter(DirectSeq(c, "pub"), ow.pubL))
-                 /\ Filter(pve, Rng(DirectSeq(c, "priv"))) = FirstOcc(Filter(DirectSeq(c, "priv"), ow.privL))
+        \cup (IF Filter(pe, lit("pub")) = FirstOcc(Filter(DirectSeq(c, "pub"), ow.pubL \cap lit("pub")))
+                 /\ Filter(pve, lit("priv")) = FirstOcc(Filter(DirectSeq(c, "priv"), ow.privL \cap lit("priv")))
               THEN {} ELSE {Fail("ListedOrderKept", mode)})
         \cup (IF Rng(pe) = ow.pubL /\ NoDup(pe) THEN DepClause(P, c, ow, "pub", pe) ELSE {})
         \cup (IF Rng(pve) = ow.privL /\ NoDup(pve) THEN DepClause(P, c, ow, "priv", pve) ELSE {})
